@@ -193,6 +193,22 @@ def gen_scenario(rng):
     return clients, has_loop
 
 
+def long_queue_scenario(rng):
+    """many jobs waiting at once behind one that runs until stopped: every one
+    of them is executed exactly once, in order (front-inserted ones first),
+    however long the queue has grown"""
+    n = rng.choice([18, 24, 33, 40, 70, 130])
+    ops = [('add', 'j0', 'loop', 0)]
+    for k in range(1, n + 1):
+        kind = 'insert' if rng.random() < 0.08 else 'add'
+        ops.append((kind, 'j{}'.format(k), rng.choice(
+            ['finish', 'finish', 'finish', 'raise']), 0))
+    clients = [ops]
+    if rng.random() < 0.5:
+        clients.append([('status',)] * rng.choice([3, 10]))
+    return clients, True
+
+
 def install_invariant(jc, hist, problems):
     lock = jc._lock
     started = set()
@@ -227,6 +243,10 @@ def run_scenario(seed, clients, policy, depth):
     try:
         jc = job_control.JobControl()
         install_invariant(jc, hist, problems)
+        # a second controller in the same process that is never given a job
+        # (ls_module's controller next to the web app's): it has nothing,
+        # reports nothing and starts nothing, whatever the first one is doing
+        idle = job_control.JobControl()
 
         def client(idx, ops):
             for op in ops:
@@ -253,6 +273,14 @@ def run_scenario(seed, clients, policy, depth):
                     elif kind == 'status':
                         result = (jc.has_jobs(), len(jc.get_queued()),
                                   [a.name for a in list(jc.get_background())])
+                        other = (idle.has_jobs(), len(idle.get_queued()),
+                                 len(list(idle.get_background())),
+                                 idle.get_current())
+                        if other != (False, 0, 0, None):
+                            problems.append(
+                                'another controller, never given a job, '
+                                'reports (has_jobs, queued, background, '
+                                'current) = {}'.format(other))
                 except sched.SchedAbort:
                     raise
                 except Exception as ex:
@@ -369,6 +397,9 @@ def analyse(ctx, out, clients, replay):
                       else 'livelock', out['deadlock'][:300], replay)
         return False
     for p in out['problems']:
+        if p.startswith('another controller'):
+            ctx.violation('idle-controller-reports-jobs', p, replay)
+            return False
         mech = 'invariant' if 'queue' in p else 'client-call-raised'
         ctx.violation(mech + ':' + p.split(' raised ')[-1][:40]
                       if mech != 'invariant' else mech, p, replay)
@@ -626,6 +657,9 @@ def run_shard(ctx):
     for i in range(ctx.shard, n, ctx.nshards):
         rng = ctx.rng('c08', i)
         clients, has_loop = gen_scenario(rng)
+        if i % (97 if ctx.tier == 'quick' else 499) == 11:
+            clients, has_loop = long_queue_scenario(rng)
+            ctx.count('long_queue_scenarios')
         policy = rng.choice(['random', 'random', 'pct'])
         depth = rng.choice([1, 2, 3])
         out = run_scenario(ctx.seed * 1000003 + i, clients, policy, depth)
